@@ -2,16 +2,22 @@
 (* C01, property-level judge of executions recorded from the REAL code.            *)
 (* The driver (harness/cmd/c01drv) runs hand-built archetypes over real resources  *)
 (* under the real MPCalContext.Run and records, per case (one archetype run):      *)
-(*   case   kinds and initial contents of the resource instances                   *)
-(*   feed   the environment delivered messages to an input stream                  *)
-(*   begin  an attempt of a critical section starts                                *)
-(*   op     iface.Read / iface.Write with the value the code returned (res) and    *)
-(*          whether the resource refused it (ok = FALSE)                           *)
-(*   fail   the body returned ErrCriticalSectionAborted / a pre-commit was refused *)
-(*   end    what Run did with the attempt (commit or abort, from the TraceRecorder)*)
-(*   obs    committed state observed out of band after the attempt (GetState,      *)
-(*          files on disk, the database, the Go channel, the peer mailbox, ...)    *)
-(*   panic  the code under test panicked                                           *)
+(*   case  kinds and initial contents of the resource instances                    *)
+(*   feed  the environment delivered messages to an input stream                   *)
+(*   att   ONE attempt of a critical section:                                      *)
+(*           ops   the iface.Read / iface.Write calls in order, each with the      *)
+(*                 value the code returned (res) and whether the resource refused  *)
+(*                 it (ok = FALSE)                                                 *)
+(*           fail  "body": the body returned ErrCriticalSectionAborted (a false    *)
+(*                 await); "pre": a PreCommit was refused; "": neither             *)
+(*           out   what Run did with the attempt: "commit" or "abort" (taken from  *)
+(*                 the context's own TraceRecorder event)                          *)
+(*           obs   committed state observed OUT OF BAND after the attempt          *)
+(*                 (GetState, files, database, Go channel, the peer's mailbox...); *)
+(*                 for output streams: the messages that left since the last look; *)
+(*           sync  every message committed so far has been waited for              *)
+(*   obs   an observation outside an attempt (initially, and after Run returned)   *)
+(*   panic the code under test panicked                                            *)
 (* This module folds the events into the abstract store of CritSec.tla (using the  *)
 (* same CritSecOps!Apply) and states C01 as invariants of the recorded history.    *)
 (* It never gets stuck on a well-formed recording: every deviation of the code is  *)
@@ -22,82 +28,88 @@ Trace == ndJsonDeserialize("trace.ndjson")
 
 VARIABLES l,        \* next line to consume
           kinds,    \* [resource -> kind] of the current case
-          store,    \* committed abstract state (what C01 says it must be)
-          work,     \* working copy of the attempt in flight
+          store,    \* committed abstract state: what C01 says it must be
           seen,     \* messages observed leaving each output stream so far
-          phase, failed, lastEnd, wrote,
-          bad, badr \* first violated clause of C01 in this case ("" = none) and the resource involved
-ovars == <<l, kinds, store, work, seen, phase, failed, lastEnd, wrote, bad, badr>>
+          lastEnd,  \* outcome of the previous attempt
+          bad, badr, badop \* first violated clause of C01 in this case ("" = none), the resource and operation involved
+ovars == <<l, kinds, store, seen, lastEnd, bad, badr, badop>>
 
 Ev(e) == l <= Len(Trace) /\ Trace[l].e = e /\ l' = l + 1
-Flag(tag, r) == IF bad = "" THEN bad' = tag /\ badr' = r ELSE UNCHANGED <<bad, badr>>
 
-OInit == /\ l = 1 /\ kinds = <<>> /\ store = <<>> /\ work = <<>> /\ seen = <<>> /\ phase = "idle"
-         /\ failed = FALSE /\ lastEnd = "none" /\ wrote = {} /\ bad = "" /\ badr = ""
+OInit == /\ l = 1 /\ kinds = <<>> /\ store = <<>> /\ seen = <<>> /\ lastEnd = "none"
+         /\ bad = "" /\ badr = "" /\ badop = 0
 
 OCase == /\ Ev("case")
-         /\ kinds' = Trace[l].kinds /\ store' = Trace[l].init /\ work' = Trace[l].init
+         /\ kinds' = Trace[l].kinds /\ store' = Trace[l].init
          /\ seen' = [r \in DOMAIN Trace[l].kinds |-> <<>>]
-         /\ phase' = "idle" /\ failed' = FALSE /\ lastEnd' = "none" /\ wrote' = {} /\ bad' = "" /\ badr' = ""
+         /\ lastEnd' = "none" /\ bad' = "" /\ badr' = "" /\ badop' = 0
 
 OFeed == /\ Ev("feed")
-         /\ store' = [store EXCEPT ![Trace[l].r] = @ \o Trace[l].a] /\ work' = store'
-         /\ UNCHANGED <<kinds, seen, phase, failed, lastEnd, wrote, bad, badr>>
+         /\ store' = [store EXCEPT ![Trace[l].r] = @ \o Trace[l].a]
+         /\ UNCHANGED <<kinds, seen, lastEnd, bad, badr, badop>>
 
-OBegin == /\ Ev("begin") /\ phase' = "open" /\ work' = store /\ failed' = FALSE /\ wrote' = {}
-          /\ UNCHANGED <<kinds, store, seen, lastEnd, bad, badr>>
+(* ---- one attempt: fold its operations over the working copy ---- *)
+Acc(w, wr, f, b, br, bo) == [work |-> w, wrote |-> wr, failed |-> f, bad |-> b, badr |-> br, badop |-> bo]
+FlagA(acc, tag, r, j) == IF acc.bad = "" THEN [acc EXCEPT !.bad = tag, !.badr = r, !.badop = j] ELSE acc
 
-ReadTag(r) == IF r \in wrote THEN "ReadOwnWrite"
-              ELSE IF kinds[r] \in StreamIn THEN "RedeliverySameOrder"
-              ELSE IF lastEnd = "abort" THEN "AbortInvisible" ELSE "CommitAll"
+ReadTag(acc, r) == IF r \in acc.wrote THEN "ReadOwnWrite"
+                   ELSE IF kinds[r] \in StreamIn THEN "RedeliverySameOrder"
+                   ELSE IF lastEnd = "abort" THEN "AbortInvisible" ELSE "CommitAll"
 
-OOp == /\ Ev("op")
-       /\ LET e  == Trace[l]
-              k  == kinds[e.r]
-              op == [o |-> e.o, i |-> e.i, a |-> e.a]
-              wf == WellFormed(k, work[e.r], op)
-              ap == IF wf THEN Apply(k, work[e.r], op) ELSE Refused(work[e.r]) IN
-          IF ~e.ok                    \* any resource may refuse any operation at any time
-          THEN failed' = TRUE /\ UNCHANGED <<work, wrote, bad, badr>>
-          ELSE IF ~ap.ok              \* the code produced a value where there is none to produce
-          THEN /\ Flag(IF k \in StreamIn THEN "RedeliverySameOrder" ELSE ReadTag(e.r), e.r)
-               /\ UNCHANGED <<work, wrote, failed>>
-          ELSE /\ work' = [work EXCEPT ![e.r] = ap.st]
-               /\ wrote' = IF op.o # "rd" \/ k \in StreamIn THEN wrote \cup {e.r} ELSE wrote
-               /\ IF op.o = "rd" /\ e.res # ap.res THEN Flag(ReadTag(e.r), e.r) ELSE UNCHANGED <<bad, badr>>
-               /\ UNCHANGED failed
-       /\ UNCHANGED <<kinds, store, seen, phase, lastEnd>>
+StepOp(acc, e, j) ==
+  LET k  == kinds[e.r]
+      op == [o |-> e.o, i |-> e.i, a |-> e.a]
+      wf == WellFormed(k, acc.work[e.r], op)
+      ap == IF wf THEN Apply(k, acc.work[e.r], op) ELSE Refused(acc.work[e.r]) IN
+  IF ~e.ok THEN [acc EXCEPT !.failed = TRUE]        \* any resource may refuse any operation at any time
+  ELSE IF ~ap.ok THEN FlagA(acc, ReadTag(acc, e.r), e.r, j)   \* the code produced a value where there is none
+  ELSE LET a1 == [acc EXCEPT !.work = [acc.work EXCEPT ![e.r] = ap.st],
+                             !.wrote = IF op.o # "rd" \/ k \in StreamIn THEN acc.wrote \cup {e.r} ELSE acc.wrote] IN
+       IF op.o = "rd" /\ e.res # ap.res THEN FlagA(a1, ReadTag(acc, e.r), e.r, j) ELSE a1
 
-OFail == /\ Ev("fail") /\ failed' = TRUE
-         /\ UNCHANGED <<kinds, store, work, seen, phase, lastEnd, wrote, bad, badr>>
+RECURSIVE FoldOps(_, _, _)
+FoldOps(ops, j, acc) == IF j > Len(ops) THEN acc ELSE FoldOps(ops, j + 1, StepOp(acc, ops[j], j))
 
-OEnd == /\ Ev("end")
-        /\ IF Trace[l].out = "commit"
-           THEN /\ store' = work /\ work' = work
-                /\ IF failed THEN Flag("CommitAfterFailure", "") ELSE UNCHANGED <<bad, badr>>
-           ELSE /\ store' = store /\ work' = store /\ UNCHANGED <<bad, badr>>
-        /\ lastEnd' = Trace[l].out /\ phase' = "idle"
-        /\ UNCHANGED <<kinds, seen, failed, wrote>>
+(* ---- the observation after an attempt ---- *)
+ObsTag(out) == IF out = "abort" THEN "AbortInvisible" ELSE "CommitAll"
+Seen(sn, o) == [r \in DOMAIN sn |-> IF r \in DOMAIN o /\ kinds[r] \in StreamOut THEN sn[r] \o o[r] ELSE sn[r]]
+Judge(acc, st, sn, o, sync, out) ==
+  LET rs      == DOMAIN o
+      phantom == {r \in rs : kinds[r] \in StreamOut /\ ~IsPrefix(sn[r], st[r])}
+      lost    == {r \in rs : kinds[r] \in StreamOut /\ sync /\ sn[r] # st[r]} \ phantom
+      differ  == {r \in rs : kinds[r] \notin StreamOut /\ o[r] # st[r]} IN
+  IF phantom # {} THEN FlagA(acc, "NoPhantomSend", CHOOSE r \in phantom : TRUE, 0)
+  ELSE IF differ # {} THEN FlagA(acc, ObsTag(out), CHOOSE r \in differ : TRUE, 0)
+  ELSE IF lost # {} THEN FlagA(acc, "CommitAll", CHOOSE r \in lost : TRUE, 0)
+  ELSE acc
 
-ObsTag == IF lastEnd = "abort" THEN "AbortInvisible" ELSE "CommitAll"
+OAtt == /\ Ev("att")
+        /\ LET e   == Trace[l]
+               a0  == FoldOps(e.ops, 1, Acc(store, {}, e.fail # "", bad, badr, badop))
+               a1  == IF e.out = "commit" /\ a0.failed THEN FlagA(a0, "CommitAfterFailure", "", 0) ELSE a0
+               st  == IF e.out = "commit" THEN a1.work ELSE store
+               sn  == Seen(seen, e.obs)
+               a2  == Judge(a1, st, sn, e.obs, e.sync, e.out) IN
+           /\ store' = st /\ seen' = sn /\ lastEnd' = e.out
+           /\ bad' = a2.bad /\ badr' = a2.badr /\ badop' = a2.badop
+        /\ UNCHANGED kinds
+
 OObs == /\ Ev("obs")
         /\ LET e  == Trace[l]
-               rs == DOMAIN e.s
-               sn == [r \in DOMAIN seen |-> IF r \in rs /\ kinds[r] \in StreamOut THEN seen[r] \o e.s[r] ELSE seen[r]]
-               phantom == {r \in rs : kinds[r] \in StreamOut /\ ~IsPrefix(sn[r], store[r])}
-               lost    == {r \in rs : kinds[r] \in StreamOut /\ e.sync /\ sn[r] # store[r]} \ phantom
-               differ  == {r \in rs : kinds[r] \notin StreamOut /\ e.s[r] # store[r]} IN
-           /\ seen' = sn
-           /\ IF phantom # {} THEN Flag("NoPhantomSend", CHOOSE r \in phantom : TRUE)
-              ELSE IF differ # {} THEN Flag(ObsTag, CHOOSE r \in differ : TRUE)
-              ELSE IF lost # {} THEN Flag("CommitAll", CHOOSE r \in lost : TRUE)
-              ELSE UNCHANGED <<bad, badr>>
-        /\ UNCHANGED <<kinds, store, work, phase, failed, lastEnd, wrote>>
+               sn == Seen(seen, e.obs)
+               a  == Judge(Acc(store, {}, FALSE, bad, badr, badop), store, sn, e.obs, e.sync,
+                           IF lastEnd = "none" THEN "commit" ELSE lastEnd) IN
+           seen' = sn /\ bad' = a.bad /\ badr' = a.badr /\ badop' = a.badop
+        /\ UNCHANGED <<kinds, store, lastEnd>>
 
-OPanic == /\ Ev("panic") /\ Flag("NoPanic", "")
-          /\ UNCHANGED <<kinds, store, work, seen, phase, failed, lastEnd, wrote>>
+OPanic == /\ Ev("panic") /\ bad' = (IF bad = "" THEN "NoPanic" ELSE bad)
+          /\ UNCHANGED <<kinds, store, seen, lastEnd, badr, badop>>
 
-ONext == OCase \/ OFeed \/ OBegin \/ OOp \/ OFail \/ OEnd \/ OObs \/ OPanic
+(* bookkeeping lines of the driver that carry no observation *)
+OSkip == /\ l <= Len(Trace) /\ Trace[l].e \in {"watchdog", "partial", "setup"} /\ l' = l + 1
+         /\ UNCHANGED <<kinds, store, seen, lastEnd, bad, badr, badop>>
+
+ONext == OCase \/ OFeed \/ OAtt \/ OObs \/ OPanic \/ OSkip
 
 (* ---- C01 on the recorded history ---- *)
 AbortInvisible      == bad # "AbortInvisible"       \* after a failed attempt every observable equals its value after the last commit
